@@ -36,7 +36,7 @@ def generate(rng, i, tier):
     hdr = rows[0]
     k = rng.choice([1, 2, 2, 3, 3, 4])
     members = [gen.gen_member(rng, hdr, len(rows), f"m{j}") for j in range(k)]
-    rng.shuffle(members)
+    rng.shuffle(members)  # seeded member order
     return {"seed": rng.getrandbits(32), "rows": rows, "members": members, "dialect": rng.choice(DIALECTS), "policy": rng.choice([["collect", "print"], ["collect"], ["collect", "fail"], ["collect", "stop"]])}
 
 
@@ -128,6 +128,7 @@ def execute(sc):
             where = f"{meth}" + ("" if agree is None else f"(if_all_agree={agree})")
             caller = ops.run_group(cs, meth, "g", if_all_agree=bool(agree))
             out.runs += 1
+            out.fault("schedule_line_major" if meth in ops.BYLINE else "schedule_path_major")
             rs = ops.results_of(cs, "g")
             if len(rs) != k:
                 out.v("results_count", f"{where}: {len(rs)} results for {k} members", method=meth)
